@@ -19,7 +19,7 @@ ASSUMPTIONS = ["new_callable is exercised as the standard library documents it: 
 
 TARGETS = ["function", "method", "classmethod", "staticmethod", "attribute"]
 REPLACEMENTS = ["default", "function", "lambda", "bound_method", "callable_object", "new_callable_mock", "new_callable_object", "non_callable"]
-ACTIVATIONS = ["with", "decorator", "start_stop", "stopall"]
+ACTIVATIONS = ["with", "decorator", "class_decorator", "start_stop", "stopall"]
 EXITS = ["normal", "exception"]
 
 
@@ -132,7 +132,7 @@ def make_patch(how, mod, target, kw):
     return p, default, side
 
 
-def exercise(live, args, kwargs, result_fn, rec, given):
+def exercise(live, args, kwargs, result_fn, rec, prefix=()):
     """all four calling conventions against the live (patched) callable"""
     from asynq import asynq as A
     problems = []
@@ -166,12 +166,18 @@ def exercise(live, args, kwargs, result_fn, rec, given):
     for name, (call, r) in outs.items():
         if repr(call) != repr(first[0]):
             problems.append("%s delivered %r to the replacement, the sync call delivered %r" % (name, call, first[0]))
-        if tuple(call[0][-len(args):] if args else ()) != tuple(args) or call[1] != kwargs:
-            problems.append("%s delivered %r, the given arguments were %r %r" % (name, call, args, kwargs))
+        if tuple(call[0]) != tuple(prefix) + tuple(args) or call[1] != kwargs:
+            problems.append("%s delivered %r, the given arguments were %r %r%s" % (name, call, args, kwargs, " (after the bound instance)" if prefix else ""))
         exp = result_fn(*call)
         if r != exp:
             problems.append("%s returned %r, the replacement returned %r" % (name, r, exp))
     return problems
+
+
+def prefix_for(target, repl, inst):
+    """Python's descriptor protocol: only a plain function (or lambda) installed on a class and reached
+    through an instance is bound to that instance"""
+    return (inst,) if target == "method" and repl in ("function", "lambda") else ()
 
 
 async def _await(coro):
@@ -203,7 +209,7 @@ def check_cell(case, ctx):
             if owner.__dict__[attr] is not kw["new"]:
                 bad("install", "the non-callable replacement was not installed as is")
         else:
-            for pr in exercise(live, args, kwargs, result_fn, rec, args):
+            for pr in exercise(live, args, kwargs, result_fn, rec, prefix_for(target, repl, inst)):
                 bad("reach", pr)
                 break
         if exit_ == "exception":
@@ -233,6 +239,15 @@ def check_cell(case, ctx):
                         inside(extra[0] if extra else None)
                 try:
                     body()
+                except Boom:
+                    pass
+            elif act == "class_decorator":
+                class Holder(object):
+                    def test_it(self, *extra):
+                        inside(extra[0] if extra else None)
+                Holder = p(Holder)
+                try:
+                    Holder().test_it()
                 except Boom:
                     pass
             else:
@@ -328,7 +343,7 @@ def check_hist(case, ctx):
                         if owner.__dict__[attr] is not obj:
                             bad("install", "non-callable replacement not visible")
                     else:
-                        for pr in exercise(live, args, kwargs, result_fn, rec, args):
+                        for pr in exercise(live, args, kwargs, result_fn, rec, prefix_for(target, kind, inst)):
                             bad("reach:" + kind, pr)
                             break
                 elif target != "attribute":
